@@ -192,7 +192,7 @@ def string_cases(rng, count, bvals):
     return res
 
 def main():
-    ctx = Ctx('C11', 'exploration', variants=('plain', 'asan'))
+    ctx = Ctx('C11', 'exploration', variants=('core', 'asan'))
     N = ctx.q(160000, 6000000)
     rng = ctx.rng
     bvals = boundary_values()
@@ -259,7 +259,7 @@ def main():
             else: part = part[k:]
         return bad, n
     jobs = [(v, i) for v in ('plain', 'asan') for i in range(chunks)]
-    res = pmap(work, jobs)
+    res = pmap(work, jobs, procs=True)
     total = 0
     opseen = {}
     for c in cases: opseen[c[0]] = opseen.get(c[0], 0) + 1
